@@ -127,6 +127,13 @@ pub mod scc {
                     && final(self)@ == old(self)@.insert(*k, *final(w)),
         { unimplemented!() }
         #[verifier::external_body]
+        pub fn get_sync(&mut self, k: &K) -> (r: Option<&mut V>)
+            ensures
+                r is None ==> !old(self)@.contains_key(*k) && final(self)@ == old(self)@,
+                r matches Some(w) ==> old(self)@.contains_key(*k) && *w == old(self)@[*k]
+                    && final(self)@ == old(self)@.insert(*k, *final(w)),
+        { unimplemented!() }
+        #[verifier::external_body]
         pub fn upsert_async(&mut self, k: K, v: V)
             ensures final(self)@ == old(self)@.insert(k, v),
         { unimplemented!() }
